@@ -86,8 +86,10 @@ def generate(rng, tier):
     ops = []
     for _ in range(rng.randrange(1, 90 if big else 60)):
         x = rng.random()
-        if n == 0 or x < 0.1:
+        if n == 0 or x < 0.07:
             ops.append(["len"])
+        elif x < 0.1:
+            ops.append(["second_tree"])
         elif x < 0.45:
             ops.append(["update", rng.randrange(n), val()])
         elif x < 0.75:
@@ -208,9 +210,13 @@ def _exec_fw(case, o: Outcome):
     from solvor.utils.data_structures import FenwickTree
 
     init = case["init"]
-    ft = FenwickTree(init if isinstance(init, int) else list(init))
+    src = init if isinstance(init, int) else list(init)  # the caller's own list object, kept and reused below
+    ft = FenwickTree(src)
     model = [0] * init if isinstance(init, int) else list(init)
     n = len(model)
+    if not isinstance(init, int) and src != list(init):
+        o.violate(PROP, "caller_list_modified", f"FenwickTree(values) changed the caller's list from {list(init)} to {src}", target="FenwickTree")
+        return
     queried = False
     updated_after_query = False
 
@@ -261,12 +267,30 @@ def _exec_fw(case, o: Outcome):
             got = len(ft)
             if got != n:
                 o.violate(PROP, "refinement_broken", f"step {step}: len={got}, model {n}", target="FenwickTree")
+        elif name == "second_tree":
+            # a second tree built from the caller's same list object must see the same initial values,
+            # and must not share state with the first one
+            if not isinstance(init, int):
+                if src != list(init):
+                    o.violate(PROP, "caller_list_modified", f"step {step}: the caller's list changed from {list(init)} to {src} after "
+                              f"updates on the tree built from it", target="FenwickTree")
+                    return
+                other = FenwickTree(src)
+                acc = 0
+                for i in range(n):
+                    acc += init[i]
+                    if other.prefix(i) != acc:
+                        o.violate(PROP, "refinement_broken", f"step {step}: a second FenwickTree built from the same list answers "
+                                  f"prefix({i})={other.prefix(i)!r}, initial values give {acc!r}", target="FenwickTree")
+                        return
+                if n:
+                    other.update(0, 1)  # must not leak into the first tree (audited below)
         else:
             raise ValueError(name)
         o.trace.append([name, repr(got)])
         if o.violations:
             return
-        if step % 4 == 3 or step == len(case["ops"]) - 1:
+        if name == "second_tree" or step % 4 == 3 or step == len(case["ops"]) - 1:
             audit(step)
             if o.violations:
                 return
